@@ -319,7 +319,12 @@ pub(crate) mod vk {
             } else {
                 want
             };
-            out[..n].copy_from_slice(&self.buf[self.pos..self.pos + n]);
+            // byte loop, not memcpy: n is symbolic when `short` is set (see SinkAny)
+            let mut i = 0;
+            while i < n {
+                out[i] = self.buf[self.pos + i];
+                i += 1;
+            }
             self.pos += n;
             Ok(n)
         }
